@@ -121,6 +121,7 @@ type caseOut struct {
 	Model       *mPayload   `json:"model,omitempty"`
 	Spec        *exprCase   `json:"spec,omitempty"`
 	Transient   string      `json:"transient,omitempty"`    // an unexplained disagreement that vanished when the query was repeated
+	NonReplayable string    `json:"non_replayable,omitempty"` // ... that persisted but did not reproduce on the same samples in a fresh database
 	GroupingTie string      `json:"grouping_tie,omitempty"` // transpiled grouping of `agg op scalar` differs from the operand's
 	Known       []string    `json:"known,omitempty"`        // finding ids that explain Diff / RiDiff completely
 	Unexplained bool        `json:"unexplained,omitempty"`  // a disagreement outside every recorded signature
@@ -322,38 +323,45 @@ func ingest(sv *server, ds *dataset, r *gen.Rand) error {
 
 // waitVisible polls until the server returns as many samples as were written (count_over_time over the whole span).
 func waitVisible(sv *server, ds *dataset) error {
-	// every written sample but the staleness markers is counted by count_over_time; an engine that also hides NaN / Inf
-	// values must not dead-lock the run: accept any count in [finite, all non-stale] that is stable over two polls
-	lo, hi, total := 0, 0, 0
+	// counted through InfluxQL (rows of every measurement), independent of the PromQL path under test: staleness
+	// markers and NaN / Inf are stored values and are counted too
+	total := 0
 	for _, s := range ds.Series {
-		for _, p := range s.Samples {
-			total++
-			if isStale(p.V) {
-				continue
-			}
-			hi++
-			if !math.IsNaN(p.V) && !math.IsInf(p.V, 0) {
-				lo++
-			}
-		}
+		total += len(s.Samples)
 	}
-	end := baseMs + ds.SpanMs + 600000
-	q := fmt.Sprintf(`sum(count_over_time({__name__=~".+"}[%dms]))`, ds.SpanMs+1200000)
 	var last string
-	prev := -1
-	for i := 0; i < 100; i++ {
-		r := sv.instant(ds.DB, q, end)
-		if r.Err == "" && len(r.Series) == 1 && len(r.Series[0].Pts) == 1 {
-			got := int(r.Series[0].Pts[0].V)
-			if got == hi || (got >= lo && got <= total && got == prev) {
+	for i := 0; i < 150; i++ {
+		body, err := sv.influxQueryDB(ds.DB, "SELECT count(value) FROM /.*/")
+		if err == nil {
+			var resp struct {
+				Results []struct {
+					Series []struct {
+						Values [][]any `json:"values"`
+					} `json:"series"`
+				} `json:"results"`
+			}
+			got := 0
+			if json.Unmarshal([]byte(body), &resp) == nil {
+				for _, r := range resp.Results {
+					for _, s := range r.Series {
+						for _, v := range s.Values {
+							if len(v) == 2 {
+								if f, ok := v[1].(float64); ok {
+									got += int(f)
+								}
+							}
+						}
+					}
+				}
+			}
+			if got == total {
 				return nil
 			}
-			prev = got
 		}
-		last = fmt.Sprintf("%+v", r)
+		last = trunc(body, 300)
 		time.Sleep(200 * time.Millisecond)
 	}
-	return fmt.Errorf("written samples not visible: want %d..%d, last answer %s", lo, hi, trunc(last, 300))
+	return fmt.Errorf("written samples not visible: want %d, last answer %s", total, last)
 }
 
 // case generation -------------------------------------------------------------------------------------------
@@ -617,13 +625,29 @@ func runCase(n int, di int, ds *dataset, u *upstream, sv *server, e exprCase, mo
 		}
 		co = co2
 	}
+	// A VIOLATION must be replayable: the same samples written again (same slices / flushes, fresh database) must give
+	// the disagreement again. On the shared machine a disagreement was seen to persist for more than 12 s and to be
+	// gone a minute later and in every replay (the range-vector path did not see the flushed part of ONE series while
+	// InfluxQL counted every row) - that is about read-after-flush, not about PromQL semantics.
+	if co.Unexplained && !strings.Contains(ds.DB, "x") {
+		fresh := *ds
+		fresh.DB = fmt.Sprintf("%sx%d", ds.DB, n)
+		if err := ingest(sv, &fresh, r); err == nil && waitVisible(sv, &fresh) == nil {
+			co2 := runCase1(n, di, &fresh, u, sv, e, mode, t, start, end, step, hit, r)
+			if !co2.Unexplained {
+				co2.NonReplayable = co.Diff + co.RiDiff
+				co2.DB = ds.DB
+				co = co2
+			}
+		}
+	}
 	tt := t
 	if mode == "range" {
 		tt = start
 	}
 	co.GroupingTie = groupingTie(&e, tt)
 	if co.Unexplained {
-		co.Replay = &replayFile{Dataset: subsetFor(ds, e.Expr), Spec: e, Mode: mode, T: t, Start: start, End: end, Step: step}
+		co.Replay = &replayFile{Dataset: *ds, Spec: e, Mode: mode, T: t, Start: start, End: end, Step: step}
 	}
 	return co
 }
